@@ -473,22 +473,34 @@ func VerifC07_Rejections() {
 			vReached("?message-accepted")
 		}
 	case 1:
-		n := vLen(12, vParam("maxwrap", 20))
+		oem := vBool()
+		hdr := 12
+		if oem {
+			hdr = 18 // explicit OEM payloads carry a 4-byte IANA number and a 2-byte payload ID
+		}
+		n := vLen(hdr, vParam("maxwrap", 20)+6)
 		d := vBytes(n)
 		vAssume(d[0] == 0x06)
-		vAssume(d[1]&0x3f != 0x02) // not an OEM payload (header 6 bytes longer)
-		length := int(d[10]) + int(d[11])*256
+		if oem {
+			vAssume(d[1]&0x3f == 0x02)
+		} else {
+			vAssume(d[1]&0x3f != 0x02)
+		}
+		length := int(d[hdr-2]) + int(d[hdr-1])*256
 		var s V2Session
 		err := s.DecodeFromBytes(d, gopacket.NilDecodeFeedback)
-		if length > n-12 {
+		if length > n-hdr {
 			vAssert(err != nil, "c07-session-wrapper-with-length-beyond-the-data-is-rejected")
 			vReached("?too-long")
 		}
 		if err == nil {
-			vAssert(length <= n-12, "c07-accepted-wrapper-length-fits")
-			vAssert(s.ID == le32(d[2:6]) && s.Sequence == le32(d[6:10]) && int(s.Length) == length &&
+			vAssert(length <= n-hdr, "c07-accepted-wrapper-length-fits")
+			vAssert(s.ID == le32(d[hdr-10:hdr-6]) && s.Sequence == le32(d[hdr-6:hdr-2]) && int(s.Length) == length &&
 				s.Encrypted == bit(d[1], 7) && s.Authenticated == bit(d[1], 6) && byte(s.PayloadType) == d[1]%64, "c07-session-wrapper-fields")
-			vAssert(vBytesEq(s.LayerPayload(), d[12:12+length]), "c07-session-wrapper-payload")
+			if oem {
+				vAssert(uint32(s.Enterprise) == le32(d[2:6]) && s.PayloadID == le16(d[6:8]), "c07-session-wrapper-oem-fields")
+			}
+			vAssert(vBytesEq(s.LayerPayload(), d[hdr:hdr+length]), "c07-session-wrapper-payload")
 			vReached("?wrapper-accepted")
 		}
 	}
